@@ -65,7 +65,7 @@ def run_job(args):
         import traceback
         s = {"crash": traceback.format_exc()[-1500:], "paths": 0, "completed": 0, "decisions": 0, "queries": 0, "unsat": 0,
              "sat": 0, "unknown_q": 0, "solver_s": 0, "reached": {}, "proved": {}, "violated": {}, "unknown": [],
-             "violations": [], "unsupported": [repr(e)[:200]], "budget": [], "timeouts": [], "pending": 0, "timed_out": False, "slow": [],
+             "violations": [], "unsupported": [repr(e)[:200]], "unsup_paths": [], "budget": [], "timeouts": [], "pending": 0, "timed_out": False, "slow": [],
              "witnesses": [], "samples": [], "functions": []}
     s["job"] = {"h": hname, "cfg": cfg}
     s["wall_s"] = round(time.time() - t0, 2)
@@ -174,6 +174,29 @@ def main(argv=None):
                 inconclusive.append(f"{jn}: solver unknown at {u}")
         for u in r["unsupported"]:
             inconclusive.append(f"{jn}: unsupported: {u}")
+        for up in r.get("unsup_paths", []):
+            # Concolic fallback: the path left the modelled subset.  The solver's inputs for the path so far are run on the
+            # real, unshimmed classes; if an assertion of the property fails there, that concrete execution is a violation in
+            # its own right (it is reported with its replay file).  If nothing fails the job stays inconclusive (above).
+            fnc = _harness_fn(modname, r["job"]["h"], r["job"]["cfg"])
+            try:
+                rr = run_concrete(fnc, up["inputs"], up["uf"], r["job"]["cfg"])
+            except Exception:  # noqa: BLE001
+                continue
+            replays += 1
+            # (a concrete assume() that fails ends the run, so every label in rr["failed"] failed BEFORE it: assumptions are not
+            # retroactive, and the symbolic run checks those labels without them as well)
+            if rr["failed"]:
+                v = {"label": rr["failed"][0], "inputs": up["inputs"], "uf": up["uf"],
+                     "symbolic_label": f"(symbolic path left the modelled subset: {up['why']}; fails on the real classes)"}
+                k = match_known(known, prop, r["job"]["h"], r["job"]["cfg"], v["label"])
+                if k is not None:
+                    known_hit.setdefault(k["id"], k)
+                elif sum(1 for x in violations_new if x["label"] == v["label"]) >= 3:
+                    violations_new.append({"label": v["label"], "job": r["job"], "replay": None, "inputs": v["inputs"]})
+                else:
+                    path = replay_file(prop, modname, r["job"]["h"], r["job"]["cfg"], v, f"u{len(violations_new)}")
+                    violations_new.append({"label": v["label"], "job": r["job"], "replay": path, "py312": "not run", "inputs": v["inputs"]})
         nonterm = False
         for tmo in r.get("timeouts", []):
             # a path that ran into the per-path time limit: replay its inputs on the real classes under a 30 s limit
